@@ -198,9 +198,10 @@ def _pack_obj(repo, cname, limit, total, _raw=False):
     o = Obj(cls=c, label=cname)
     it = FinamInterp(repo)
     seed_from_init(it, c, o, {"name": cname, "info": None, "static": False})
-    o.fields.update(logger=Logger(label="logger"), name=cname, data=[],
-                    _output_info=Obj(label="out_info", fields={"units": Sym("u_out")}),
-                    _input_info=Obj(label="in_info", fields={"units": Sym("u_in")}))
+    from ..absbase import set_backed
+    o.fields.update(logger=Logger(label="logger"), name=cname, data=[])
+    set_backed(repo, o, "in_info", Obj(label="in_info", fields={"units": Sym("u_in")}))
+    set_backed(repo, o, "info", Obj(label="out_info", fields={"units": Sym("u_out")}))
     it.store_attr(o, "memory_limit", limit, None)
     it.store_attr(o, "memory_location", Sym("location"), None)
     if not _raw:
@@ -447,7 +448,9 @@ def _names_after_eviction(repo, sink, c, pk, od):
     o = _pack_obj(repo, c.name, 0, 0)
     _set_counter(repo, o, 0)
     tgt = Obj(label="A")
-    o.fields["_connected_inputs"] = {tgt: None}
+    if c.name == "Output" or repo.is_subclass(c, repo.cls("Output")):
+        from .buffer import _registry_attr
+        o.fields[_registry_attr(repo)] = {tgt: None}
     try:
         for i in range(2):
             o.fields["data"].append((T(i), it.run(pk, [Sym("payload")], self_obj=o)))
